@@ -107,6 +107,13 @@ func (c muxCfg) pset(kind string, p int) paramSet {
 			}
 		}
 		return out
+	case "h265b":
+		out := h265bParams
+		if p == 1 {
+			out.vps = bytes.Clone(out.vps)
+			out.vps[len(out.vps)-1] ^= 0x10 // the decode-time derivation reads the SPS and PPS only
+		}
+		return out
 	case "h265":
 		out := h265Params[0]
 		if p == 1 {
@@ -249,6 +256,30 @@ var h265Params = []paramSet{
 		width: 1920, height: 1080, fps: "60.000"},
 }
 
+// H265 with reordered pictures (kind "h265b"): parameter sets (sps_max_num_reorder_pics = 2, VUI timing 30 fps) and
+// slice headers of mediacommon's DTS-extractor test stream. The decode time the muxer derives for an access unit is its
+// presentation time minus a number of frames that depends on the slice header alone: 2 for an IDR, 4 for the first
+// kind of TRAIL_R slice ("P"), 2 for the second ("B"), 0 for the TRAIL_N slice ("b").
+var h265bParams = paramSet{
+	vps: []byte{0x40, 0x01, 0x0c, 0x01, 0xff, 0xff, 0x01, 0x60, 0x00, 0x00, 0x03, 0x00, 0x90, 0x00, 0x00, 0x03, 0x00, 0x00, 0x03, 0x00, 0x78, 0x99, 0x98, 0x09},
+	sps: []byte{0x42, 0x01, 0x01, 0x01, 0x60, 0x00, 0x00, 0x03, 0x00, 0x90, 0x00, 0x00, 0x03, 0x00, 0x00, 0x03, 0x00, 0x78, 0xa0, 0x03, 0xc0, 0x80, 0x10, 0xe5,
+		0x96, 0x66, 0x69, 0x24, 0xca, 0xe0, 0x10, 0x00, 0x00, 0x03, 0x00, 0x10, 0x00, 0x00, 0x03, 0x01, 0xe0, 0x80},
+	pps:   []byte{0x44, 0x01, 0xc1, 0x72, 0xb4, 0x62, 0x40},
+	width: 1920, height: 1080,
+}
+
+var h265bSlices = [4][]byte{
+	{0x26, 0x01, 0xaf, 0x08, 0x42, 0x23, 0x48, 0x8a, 0x43, 0xe2},                                                             // IDR_W_RADL
+	{0x02, 0x01, 0xd0, 0x19, 0x5f, 0x8c, 0xb4, 0x42, 0x49, 0x20, 0x40, 0x11, 0x16, 0x92, 0x93, 0xea, 0x54, 0x57, 0x4e, 0x0a}, // TRAIL_R, 4 frames
+	{0x02, 0x01, 0xe0, 0x44, 0x97, 0xe0, 0x81, 0x20, 0x44, 0x52, 0x62, 0x7a, 0x1b, 0x88, 0x0b, 0x21, 0x26, 0x5f, 0x10, 0x9c}, // TRAIL_R, 2 frames
+	{0x00, 0x01, 0xe0, 0x24, 0xff, 0xfa, 0x24, 0x0a, 0x42, 0x25, 0x8c, 0x18, 0xe6, 0x1c, 0xea, 0x5a, 0x5d, 0x07, 0xc1, 0x8f}, // TRAIL_N, 0 frames
+}
+
+// h265bLag is the number of 90 kHz ticks by which the presentation time of a slice of kind k exceeds its decode time.
+var h265bLag = [4]int64{6000, 12000, 6000, 0}
+
+func isH265(kind string) bool { return kind == "h265" || kind == "h265b" }
+
 var av1Params = []paramSet{
 	{seqHdr: []byte{8, 0, 0, 0, 66, 167, 191, 228, 96, 13, 0, 64}, width: 1920, height: 804},
 	{seqHdr: []byte{0x8, 0x0, 0x0, 0x0, 0x42, 0xab, 0xbf, 0xc3, 0x71, 0xab, 0xe6, 0x1}, width: 1920, height: 1080},
@@ -270,7 +301,7 @@ type trackSpec struct {
 
 func (t trackSpec) video() bool {
 	switch t.Kind {
-	case "h264", "h264b", "h265", "vp9", "av1":
+	case "h264", "h264b", "h265", "h265b", "vp9", "av1":
 		return true
 	}
 	return false
@@ -391,6 +422,8 @@ func newTrackCfg(c muxCfg, t trackSpec) *Track {
 		tr.Codec = &codecs.H264{SPS: bytes.Clone(h264bParams[0].sps), PPS: bytes.Clone(h264bParams[0].pps)}
 	case "h265":
 		tr.Codec = &codecs.H265{VPS: bytes.Clone(h265Params[0].vps), SPS: bytes.Clone(h265Params[0].sps), PPS: bytes.Clone(h265Params[0].pps)}
+	case "h265b":
+		tr.Codec = &codecs.H265{VPS: bytes.Clone(h265bParams.vps), SPS: bytes.Clone(h265bParams.sps), PPS: bytes.Clone(h265bParams.pps)}
 	case "av1":
 		tr.Codec = &codecs.AV1{SequenceHeader: bytes.Clone(av1Params[0].seqHdr)}
 	case "vp9":
@@ -452,7 +485,7 @@ type wunit struct {
 	Params  int   `json:"p,omitempty"`       // video: 0 none inline, 1 current parameter set inline, 2 switch to the other parameter set (inline)
 	NAU     int   `json:"n,omitempty"`       // audio: access units / packets in this write (default 1)
 	NoSlice bool  `json:"noslice,omitempty"` // h264 / h265: the access unit carries parameter sets only (the muxer takes note of them and drops the unit)
-	POC     int   `json:"poc,omitempty"`     // h264b: picture order count of the frame; DTS is then the *presentation* time passed to Write
+	POC     int   `json:"poc,omitempty"`     // h264b: picture order count of the frame; h265b: slice kind (0 IDR, 1 P, 2 B, 3 b); DTS is then the *presentation* time passed to Write
 	Corrupt bool  `json:"corrupt,omitempty"` // video: the unit carries parameter sets of the right type that cannot be parsed (h264 h265 av1)
 	Seq     int   `json:"seq"`               // unique id, encoded in the payload
 	Size    int   `json:"size,omitempty"`    // extra payload bytes
@@ -497,7 +530,7 @@ func (mi *muxInst) videoData(u wunit) [][]byte {
 		switch kind {
 		case "h264", "h264b":
 			return [][]byte{ps.sps, ps.pps}
-		case "h265":
+		case "h265", "h265b":
 			return [][]byte{ps.vps, ps.sps, ps.pps}
 		}
 	}
@@ -516,6 +549,12 @@ func (mi *muxInst) videoData(u wunit) [][]byte {
 		} else {
 			au = append(au, append([]byte{0x41}, payloadTail(u, 0)...))
 		}
+	case "h265b":
+		if u.Params != 0 {
+			au = append(au, mi.cfg.pset(kind, p).vps, mi.cfg.pset(kind, p).sps, mi.cfg.pset(kind, p).pps)
+		}
+		// u.POC selects the slice header; the payload tail follows the bytes the decode-time derivation reads
+		au = append(au, append(bytes.Clone(h265bSlices[u.POC]), payloadTail(u, 0)...))
 	case "h265":
 		if u.Params != 0 {
 			au = append(au, mi.cfg.pset(kind, p).vps, mi.cfg.pset(kind, p).sps, mi.cfg.pset(kind, p).pps)
@@ -566,7 +605,7 @@ func (mi *muxInst) write(u wunit) error {
 	switch mi.cfg.Tracks[u.Track].Kind {
 	case "h264", "h264b":
 		return mi.m.WriteH264(tr, ntp, u.DTS, mi.videoData(u))
-	case "h265":
+	case "h265", "h265b":
 		return mi.m.WriteH265(tr, ntp, u.DTS, mi.videoData(u))
 	case "av1":
 		return mi.m.WriteAV1(tr, ntp, u.DTS, mi.videoData(u))
